@@ -116,6 +116,14 @@ CHECKS = {
         "DENMReceptionManagement into a real LDM and queried back through IF.LDM.4.",
         "Sampled schedules (<= 5 events per station); 1 ms tolerance; LDM placed away from the event positions (C12 finding).",
     ),
+    "C18": (
+        "exhaustive bounded exploration of the clustering state machine with state hashing, hypothesis event sequences, and closed loops of real VRU services through the real UPER coder",
+        "All event sequences up to a depth bound over a 26-symbol alphabet (commands, received VAMs, updates, clock steps) are applied to the real "
+        "VBSClusteringManager and the statement's invariants and duration clauses are checked after every event; longer random sequences "
+        "follow; 2..3 real VRUAwarenessService instances exchange VAMs encoded and decoded by the real coder to check that an advertised cluster "
+        "is seen, a join completes, cardinality grows and members are released on leader silence, break-up or leave.",
+        "Depth-bounded exhaustiveness (quick 6, thorough 7) relative to the alphabet; duration clauses judged at update() instants; CPM-reason break-up is a recorded known finding.",
+    ),
 }
 
 NOT_APPLICABLE = {
